@@ -181,7 +181,7 @@ var asyncProbes = []inj.Probe{
 		Defs: common + `
 func run() int {
 	HV(1, cnt)
-	for i := 0; i < 400000; i++ {
+	for i := 0; i < 200000; i++ {
 		cnt++
 		if cnt%32 == 0 { HV(2, cnt) }
 	}
@@ -197,7 +197,7 @@ func leaf() { inc(); if cnt%32 == 0 { HV(2, cnt) } }
 func mid() { for i := 0; i < 10; i++ { leaf() } }
 func run() int {
 	HV(1, cnt)
-	for i := 0; i < 20000; i++ { mid() }
+	for i := 0; i < 10000; i++ { mid() }
 	return cnt
 }
 `,
@@ -208,10 +208,10 @@ func run() int {
 		Defs: common + `
 func d() {
 	defer func() {
-		for i := 0; i < 150000; i++ { dcnt++; if dcnt%32 == 0 { HV(102, dcnt) } }
+		for i := 0; i < 80000; i++ { dcnt++; if dcnt%32 == 0 { HV(102, dcnt) } }
 	}()
 	HV(1, cnt)
-	for i := 0; i < 150000; i++ { cnt++; if cnt%32 == 0 { HV(2, cnt) } }
+	for i := 0; i < 80000; i++ { cnt++; if cnt%32 == 0 { HV(2, cnt) } }
 }
 func run() int { d(); return cnt }
 `,
@@ -222,9 +222,9 @@ func run() int { d(); return cnt }
 		Defs: common + `
 func run() int {
 	HV(1, cnt)
-	for i := 0; i < 300000; i++ { cnt++ }
+	for i := 0; i < 150000; i++ { cnt++ }
 	HV(2, cnt)
-	for i := 0; i < 300000; i++ { cnt++ }
+	for i := 0; i < 150000; i++ { cnt++ }
 	return cnt
 }
 `,
